@@ -175,13 +175,17 @@ Definition st_modify (s : gstate) (g : N) (modifier modified : member) (a : acce
 
 Definition st_promote (s : gstate) (g : N) (p m : member) (a : access) : option gstate :=
   match glookup (g, m) s with
-  | Some v => if is_manager v then Some s else st_modify s g p m a
+  | Some v => if is_manager v
+              then (if actor_manages s g p then Some s else None)   (* check_manager, fix df644db *)
+              else st_modify s g p m a
   | None => None
   end.
 
 Definition st_demote (s : gstate) (g : N) (p m : member) (a : access) : option gstate :=
   match glookup (g, m) s with
-  | Some v => if is_pull (acc v) then Some s else st_modify s g p m a
+  | Some v => if is_pull (acc v)
+              then (if actor_manages s g p then Some s else None)   (* check_manager, fix df644db *)
+              else st_modify s g p m a
   | None => None
   end.
 
